@@ -308,24 +308,28 @@ func runFlush(c *Case) error {
 	}
 	rr, err := cl.Version(8192, ver)
 	if err != nil || rr.Type != ref9p.Rversion {
-		return fmt.Errorf("prologue: Tversion: %v %+v", err, rr)
+		return prologueFail("Tversion", err, rr)
 	}
 	if rr, err = cl.Attach(0, ref9p.NOFID, "alice", "", 1001); err != nil || rr.Type != ref9p.Rattach {
-		return fmt.Errorf("prologue: Tattach: %v %+v", err, rr)
+		return prologueFail("Tattach", err, rr)
 	}
 	for _, it := range r.items {
 		if it.prep != "" {
 			rr, err := cl.Walk(0, it.fid, it.prep)
 			if err != nil || rr.Type != ref9p.Rwalk || len(rr.Wqid) != 1 {
-				return fmt.Errorf("prologue: walk to %q: %v %+v", it.prep, err, rr)
+				return prologueFail("walk to "+it.prep, err, rr)
 			}
 			if it.open >= 0 {
 				if rr, err = cl.Open(it.fid, uint8(it.open)); err != nil || rr.Type != ref9p.Ropen {
-					return fmt.Errorf("prologue: open: %v %+v", err, rr)
+					return prologueFail("open", err, rr)
 				}
 			}
 		}
 		sv.S.Set(it.key, it.spec.Behav)
+	}
+	// the prologue's calls are over (a reply is on the wire before the call is logged as done)
+	for i := 0; i < 5000 && !callsOver(sv.S, 0); i++ {
+		time.Sleep(200 * time.Microsecond)
 	}
 	before := len(sv.S.Log())
 	r.before = before
@@ -709,7 +713,7 @@ func labelFlush(c *Case) {
 }
 
 func TestPropFlushHistories(t *testing.T) {
-	hx.Check(t, "flushhistories", hx.N(400, 3000), func(t *rapid.T) {
+	hx.Check(t, "flushhistories", hx.N(300, 2500), func(t *rapid.T) {
 		c := genFlushCase(t)
 		if err := execute("flushhistories", c); err != nil {
 			hx.Failf(t, "flushhistories", c, "%v", err)
